@@ -340,10 +340,34 @@ def shared_params_case(case):
                                                   "got": got, "expected": expected, "history": f"an objective with kernel {first!r} used the same dictionary first (warnings: {mode})"}, **where))
     except Exception as e:  # noqa
         v.append(violation("score_mismatch", {"target": where["target"], "kernel": second, "error": repr(e)[:200], "dictionary_now": d_user}, **where))
+    # the objective RECONFIGURED after it was built and used - by set_params where the object offers it (as scikit-learn's tooling does through
+    # nested parameters), else by assigning the public hyperparameter - scores with the new parameters
+    import copy
+    for how in ("assign", "deepcopy_then_assign"):
+        g3 = G.MMDGEMINI(ovo=ovo, kernel=second, kernel_params=dict(pristine))
+        try:
+            g3(P.copy(), g3.compute_affinity(X))
+            if how == "deepcopy_then_assign":
+                g3 = copy.deepcopy(g3)
+            new_params = dict(pristine, gamma=2.0)
+            if hasattr(g3, "set_params"):
+                g3.set_params(kernel_params=new_params)
+            else:
+                g3.kernel_params = new_params
+            got3 = float(g3(P.copy(), g3.compute_affinity(X)))
+            A3 = pairwise_kernels(X, metric=second, **new_params)
+            exp3, slack3 = ref.ref_score_slack(P, A3, "mmd", "ovo" if ovo else "ova")
+            if abs(got3 - exp3) > ref.tol("mmd", exp3, slack3, float(np.sqrt(np.abs(A3).max()))):
+                v.append(violation("score_mismatch", {"target": where["target"], "kernel": second, "history": f"objective used, then kernel_params changed ({how})",
+                                                      "got": got3, "expected": exp3}, **dict(where, via="reconfigured_objective")))
+                break
+        except Exception as e:  # noqa
+            v.append(violation("score_mismatch", {"target": where["target"], "history": how, "error": repr(e)[:200]}, **dict(where, via="reconfigured_objective")))
+            break
     if d_user != pristine:
         v.append(violation("score_depends_on_what_the_object_saw_before", {"target": where["target"], "history": "the user's kernel_params dictionary was rewritten",
                                                                          "as_written": pristine, "now": d_user}, **where))
-    return {"v": v[:2], "nt": [case], "stats": {"evals": 1}, "sample": {"first_kernel": first, "second_kernel": second, "warnings": mode}}
+    return {"v": v[:3], "nt": [case], "stats": {"evals": 3}, "sample": {"first_kernel": first, "second_kernel": second, "warnings": mode}}
 
 
 def explorers(tier, seed):
@@ -397,7 +421,7 @@ def explorers(tier, seed):
     c_sh = [(f_, s_, m_, o_, seed) for f_ in ("rbf", "laplacian", "linear", "cosine", "sigmoid", "poly") for s_ in ("poly", "sigmoid")
             for m_ in ("ignore", "error", "always") for o_ in (False, True) if f_ != s_]
     return [
-        Explorer("shared_parameter_dictionaries", "props.c01", "shared_params_case", c_sh, chunk=8, floor=20,
+        Explorer("shared_parameter_dictionaries", "props.c01", "shared_params_case", c_sh, chunk=8, floor=20,  # also: objectives reconfigured after use
                  rule="one user kernel_params dictionary ({gamma, degree, coef0} / {gamma, coef0}) shared by two MMD objectives: the first one's kernel ignores / rejects some keys "
                       "(call attempted with warnings shown, silenced and as errors), the second one must score with all parameters as written; dictionary unchanged"),
         Explorer("data_containers", "props.c01", "container_case", c_cont, chunk=8, floor=50,
